@@ -85,6 +85,9 @@ def main(tier):
     res.merge(histrun.run(PROP, b, core.scaled(120 if quick else 2000), dict(conc, p_kill=0.012), ORACLES, salt="k"))
     res.merge(histrun.run(PROP, b, core.scaled(60 if quick else 1000), dict(conc, p_kill=0.012, variant="lose-all-unsynced"), ORACLES, salt="kl"))
     res.merge(histrun.run(PROP, b, core.scaled(60 if quick else 1000), dict(conc, gc=True, max_inj=2), ORACLES, salt="gc"))
+    # a backlog queued while the daemon was down for 40 hours: preprocessing races the garbage collector
+    res.merge(histrun.run(PROP, b, core.scaled(10 if quick else 120), dict(conc, gc=True, max_inj=1, backlog=45, conc_list=[10], max_quiescent=4000),
+                          ORACLES, salt="bl"))
     # sequential histories (deliveries, bounces, restarts) under the same per-step oracle
     res.merge(histrun.run(PROP, b, core.scaled(120 if quick else 2000), {"p_crash": 0.05}, ORACLES, salt="h"))
     # crash sweep of a fixed two-message scenario: SIGKILL before every mutating call of qmail-send / qmail-clean
